@@ -76,7 +76,12 @@ def run(ctx):
     pats = list(strings_upto('\\xuN{}017af/*', 4 if ctx.quick else 6))
     pats += ['\\N{DIGIT ONE}x', '\\N{NOPE}', '\\U0001F600', '\\U00110000', '\\u00e9\\x41\\101\\7', 'a\\N{LATIN SMALL LETTER A}',
              '\\400', '\\N{', '\\N{}', '\\x4', '\\u12', '\\U0001F60', '\\\\x41', '\\\\\\x41', '\\1234', '\\08', '\\x7c', '\\174']
-    toks = ['\\', 'x', 'u', 'U', 'N{', '}', '41', '7c', '0', '7', '8', 'a', 'n', '/', '*', '[', ']', '\\\\', 'DIGIT ONE', '0041', '00000041']
+    # escapes denoting bytes >= 0x80, names with hyphens / digits / lower case, the longest forms
+    designed_raw = ['caf\\xe9*', '\\xe9', '\\xff\\x80', '[\\xe9\\xff]', '\\351', '\\377', 'a\\N{NO-BREAK SPACE}b*', 'x[\\N{HYPHEN-MINUS}\\N{EM DASH}]y*',
+             '\\N{CJK UNIFIED IDEOGRAPH-4E00}?', '\\N{latin small letter a}', '\\N{LATIN CAPITAL LETTER A WITH GRAVE}', '\\N{DIGIT ONE}\\N{DIGIT TWO}',
+             '\\u00e9', '\\U000000e9', '\\xE9', '\\XE9', '\\N{NO-BREAK SPACE', '\\N{-}']
+    pats += designed_raw
+    toks = ['\\', 'x', 'u', 'U', 'N{', '}', '41', '7c', '0', '7', '8', 'a', 'n', '/', '*', '[', ']', '\\\\', 'DIGIT ONE', '0041', '00000041', 'e9', 'ff', 'NO-BREAK SPACE', 'HYPHEN-MINUS']
     for _ in range(2000 if ctx.quick else 30000):
         pats.append(''.join(rng.choice(toks) for _ in range(rng.randint(1, 8))))
     pats = sorted(set(pats))
@@ -85,8 +90,10 @@ def run(ctx):
     # ---- search: RAWCHARS == matching with the hand-decoded pattern; nothing decoded without it ------------------
     evals = 0
     nontriv = set()
-    names = ['A', 'a', 'x41', 'a|b', 'a', 'b', '*', 'ab', '\n', 'a\nb', 'anb', '|', 'a{', 'x', '\x07', 'é', 'a/b', '41', 'a*']
+    names = ['A', 'a', 'x41', 'a|b', 'a', 'b', '*', 'ab', '\n', 'a\nb', 'anb', '|', 'a{', 'x', '\x07', 'é', 'a/b', '41', 'a*', 'café.txt', 'caf\xc3\xa9.txt', '\xe9', '\xff\x80',
+             'a\xa0b', 'x-y', 'x\u2014y', '\u4e00', '-', '\xa0']
     cand = [p for p in pats if len(p) <= 10][: 2500 if ctx.quick else 20000]
+    cand += designed_raw
     cand += ['a\\x7cb', '\\x2a', 'a\\x7bb,c\\x7d', '\\x5ba\\x5d', 'a\\nb', '\\x41', '\\101', '\\u0041', '\\x21a', 'a\\174b', '\\x3f']
     for p in cand:
         for isb in (False, True):
